@@ -40,6 +40,10 @@ def r_op(o):
         return "OpChangePub %s %s" % (cN(g("p")), cN(g("q")))
     if k == "newacct":
         return "OpNewAccount %s" % sc
+    if k == "newrawacct":
+        return "OpNewRawAccount %s %s" % (sc, cN(g("n")))
+    if k == "newscope":
+        return "OpNewScope"
     if k == "newwatch":
         return "OpNewWatchAccount %s" % sc
     if k == "props":
@@ -131,10 +135,10 @@ def r_case(c):
 
 class C05(Check):
     ID = "C05"
-    RULE = ("real waddrmgr.Manager on a bbolt file (Create with FastScryptOptions, four default scopes). corpus/C05 replays + 17 fixed scenario histories "
+    RULE = ("real waddrmgr.Manager on a bbolt file (Create with FastScryptOptions, four default scopes). corpus/C05 replays + 18 fixed scenario histories "
             "+ n random histories of 13..26 main operations: Unlock with the right / a near-miss (trailing space, case, dropped first "
             "or last byte, doubled, empty) / an unrelated / a former passphrase, Lock, ChangePassphrase private and public (locked "
-            "and unlocked, right and wrong old passphrase), restart (Open with right / wrong public passphrase), NewAccount, "
+            "and unlocked, right and wrong old passphrase), restart (Open with right / wrong public passphrase), NewAccount, NewRawAccount, "
             "NewAccountWatchingOnly, AccountProperties, Next{External,Internal}Addresses, ImportPrivateKey (also duplicates), "
             "ImportScript / ImportWitnessScript (secret and public) / ImportTaprootScript, Address, PrivKey, Script, "
             "DeriveFromKeyPath, DeriveFromKeyPathCache, ConvertToWatchingOnly, MarkUsed (evicts the address object from the cache; "
@@ -158,7 +162,9 @@ class C05(Check):
             "tracked by the manager or not.  After every main operation (probe policy all: every, "
             "some: a third, none) EVERY known address / script / account is probed: PrivKey+ExportPrivKey, Script(+TaprootScript), "
             "DeriveFromKeyPath+PrivKey, DeriveFromKeyPathCache, Encrypt/Decrypt for the three key types, and while locked or "
-            "watching-only NewAccount, ImportPrivateKey, ImportScript(secret).  IsLocked, WatchOnly and the liveness of every "
+            "watching-only NewAccount, NewRawAccount, NewScopedKeyManager (locked only), ImportPrivateKey, ImportScript(secret); "
+            "the oracle demands of each: an error, nothing created or returned, and the class ErrLocked or ErrWatchingOnly - any "
+            "other class is refused_with_wrong_error_class@<operation>.  IsLocked, WatchOnly and the liveness of every "
             "clear-text buffer (hook VerifSecretBuffers + accountInfo.last{External,Internal}Addr by reflection) are recorded after "
             "every main operation and after its probes.  Compared with the model: every result class (in a locked / watching-only "
             "state 'locked' and 'watching-only' are interchangeable), the two flags, and - in locked / watching-only snapshots only - "
